@@ -2,7 +2,7 @@
 C04 for a recursive reference language, part 1: DEFINITIONS.
 
 A small OpenQASM 3 fragment with NESTING — expressions (`Oq3.PrattEv.E`, arbitrary depth) inside
-statements, statement lists inside the blocks of `if` / `while` / `for` — together with its print
+statements, statement lists inside the blocks of `if` / `while` / `for` / `gate` / `def` — together with its print
 as parser input (`toksL`), the event list the model grammar emits for it (`evsL`, compositional,
 with `Oq3.PrattEv.evs` inside) and the pre-order node sequence `process` makes of it (`nodesL`).
 
@@ -26,6 +26,14 @@ def Ty.kind : Ty → SyntaxKind
 def Ty.wide : Ty → Bool
   | .bool => false
   | _ => true
+
+/-- parameter types of subroutines: a scalar type or `qubit` -/
+inductive PTy | cls (ty : Ty) | qubit
+  deriving DecidableEq, Repr, Inhabited
+
+def PTy.kind : PTy → SyntaxKind
+  | .cls ty => ty.kind
+  | .qubit => .QUBIT_KW
 
 mutual
 /-- statements -/
@@ -55,6 +63,12 @@ inductive Stmt
   | whileS (c : E) (body : Stmts)
   /-- `for ty x in [lo:hi] { body }` -/
   | forS (ty : Ty) (lo hi : E) (body : Stmts)
+  /-- `gate g q0, …, q_nq { body }` (`params = none`) or `gate g(p0, …, p_k) q0, …, q_nq { body }` (`params = some k`) -/
+  | gateDef (params : Option Nat) (nq : Nat) (body : Stmts)
+  /-- `def f(ty x, …) { body }` / `def f(ty x, …) -> ty { body }` -/
+  | defS (params : List PTy) (ret : Option Ty) (body : Stmts)
+  /-- `return;` / `return e;` -/
+  | ret (e : Option E)
 /-- statement lists -/
 inductive Stmts
   | nil
@@ -77,6 +91,17 @@ def argToks : List E → List Tok
   | [] => []
   | [a] => toks a
   | a :: as => toks a ++ (tk .COMMA :: argToks as)
+
+/-- `ty0 x0, ty1 x1, …` -/
+def typedToks : List PTy → List Tok
+  | [] => []
+  | [p] => [tk p.kind, tk .IDENT]
+  | p :: ps => tk p.kind :: tk .IDENT :: tk .COMMA :: typedToks ps
+
+/-- `-> ty` (the arrow is the joint pair `-` `>`) -/
+def retToks : Option Ty → List Tok
+  | none => []
+  | some ty => [(.MINUS, true), tk .R_ANGLE, tk ty.kind]
 
 def tyToks (ty : Ty) (w : Option E) : List Tok :=
   match w with
@@ -108,6 +133,16 @@ def toksS : Stmt → List Tok
   | .forS ty lo hi body =>
     tk .FOR_KW :: tk ty.kind :: tk .IDENT :: tk .IN_KW :: tk .L_BRACK :: (toks lo ++ (tk .COLON :: (toks hi ++
       (tk .R_BRACK :: tk .L_CURLY :: (toksL body ++ [tk .R_CURLY])))))
+  | .gateDef none nq body =>
+    tk .GATE_KW :: tk .IDENT :: (qubitToks nq ++ (tk .L_CURLY :: (toksL body ++ [tk .R_CURLY])))
+  | .gateDef (some k) nq body =>
+    tk .GATE_KW :: tk .IDENT :: tk .L_PAREN :: (qubitToks k ++ (tk .R_PAREN :: (qubitToks nq ++
+      (tk .L_CURLY :: (toksL body ++ [tk .R_CURLY])))))
+  | .defS ps ret body =>
+    tk .DEF_KW :: tk .IDENT :: tk .L_PAREN :: (typedToks ps ++ (tk .R_PAREN :: (retToks ret ++
+      (tk .L_CURLY :: (toksL body ++ [tk .R_CURLY])))))
+  | .ret none => [tk .RETURN_KW, tk .SEMICOLON]
+  | .ret (some e) => tk .RETURN_KW :: (toks e ++ [tk .SEMICOLON])
 def toksL : Stmts → List Tok
   | .nil => []
   | .cons s ss => toksS s ++ toksL ss
@@ -123,6 +158,22 @@ def argEvs : List E → List Ev
   | [] => []
   | [a] => evs a
   | a :: as => evs a ++ (.token .COMMA 1 :: argEvs as)
+
+def paramEvs : Nat → List Ev
+  | 0 => [.start .PARAM none, .token .IDENT 1, .finish]
+  | n + 1 => .start .PARAM none :: .token .IDENT 1 :: .finish :: .token .COMMA 1 :: paramEvs n
+
+def typedEvs : List PTy → List Ev
+  | [] => []
+  | [p] => [.start .TYPED_PARAM none, .start .SCALAR_TYPE none, .token p.kind 1, .finish, .start .NAME none,
+            .token .IDENT 1, .finish, .finish]
+  | p :: ps => .start .TYPED_PARAM none :: .start .SCALAR_TYPE none :: .token p.kind 1 :: .finish :: .start .NAME none ::
+      .token .IDENT 1 :: .finish :: .finish :: .token .COMMA 1 :: typedEvs ps
+
+def retEvs : Option Ty → List Ev
+  | none => []
+  | some ty => [.start .RETURN_SIGNATURE none, .token .THIN_ARROW 2, .start .SCALAR_TYPE none, .token ty.kind 1,
+                .finish, .finish]
 
 def tyEvs (ty : Ty) (w : Option E) : List Ev :=
   match w with
@@ -191,6 +242,20 @@ def evsS : Stmt → List Ev
       .start .RANGE_EXPR none :: .token .L_BRACK 1 ::
       (evs lo ++ (.token .COLON 1 :: (evs hi ++ (.token .R_BRACK 1 :: .finish :: .finish ::
         (blockEvs (evsL body) ++ [.finish])))))
+  | .gateDef none nq body =>
+    .start .GATE none :: .token .GATE_KW 1 :: .start .NAME none :: .token .IDENT 1 :: .finish ::
+      .start .PARAM_LIST none :: (paramEvs nq ++ (.finish :: (blockEvs (evsL body) ++ [.finish])))
+  | .gateDef (some k) nq body =>
+    .start .GATE none :: .token .GATE_KW 1 :: .start .NAME none :: .token .IDENT 1 :: .finish ::
+      .start .PARAM_LIST none :: .token .L_PAREN 1 :: (paramEvs k ++ (.token .R_PAREN 1 :: .finish ::
+        .start .PARAM_LIST none :: (paramEvs nq ++ (.finish :: (blockEvs (evsL body) ++ [.finish])))))
+  | .defS ps ret body =>
+    .start .DEF none :: .token .DEF_KW 1 :: .start .NAME none :: .token .IDENT 1 :: .finish ::
+      .start .TYPED_PARAM_LIST none :: .token .L_PAREN 1 :: (typedEvs ps ++ (.token .R_PAREN 1 :: .finish ::
+        (retEvs ret ++ (blockEvs (evsL body) ++ [.finish]))))
+  | .ret none => tombLink :: .start .RETURN_EXPR (some 3) :: .token .RETURN_KW 1 :: .finish :: exprStmtTail
+  | .ret (some e) =>
+    tombLink :: .start .RETURN_EXPR (some (len e + 3)) :: .token .RETURN_KW 1 :: (evs e ++ (.finish :: exprStmtTail))
 def evsL : Stmts → List Ev
   | .nil => []
   | .cons s ss => evsS s ++ evsL ss
@@ -209,6 +274,20 @@ def argNodes : List E → List Step
   | [] => []
   | [a] => nodes a
   | a :: as => nodes a ++ (.token .COMMA 1 :: argNodes as)
+
+def paramNodes : Nat → List Step
+  | 0 => [.enter .PARAM, .token .IDENT 1, .exit]
+  | n + 1 => .enter .PARAM :: .token .IDENT 1 :: .exit :: .token .COMMA 1 :: paramNodes n
+
+def typedNodes : List PTy → List Step
+  | [] => []
+  | [p] => [.enter .TYPED_PARAM, .enter .SCALAR_TYPE, .token p.kind 1, .exit, .enter .NAME, .token .IDENT 1, .exit, .exit]
+  | p :: ps => .enter .TYPED_PARAM :: .enter .SCALAR_TYPE :: .token p.kind 1 :: .exit :: .enter .NAME ::
+      .token .IDENT 1 :: .exit :: .exit :: .token .COMMA 1 :: typedNodes ps
+
+def retNodes : Option Ty → List Step
+  | none => []
+  | some ty => [.enter .RETURN_SIGNATURE, .token .THIN_ARROW 2, .enter .SCALAR_TYPE, .token ty.kind 1, .exit, .exit]
 
 def tyNodes (ty : Ty) (w : Option E) : List Step :=
   match w with
@@ -272,6 +351,20 @@ def nodesS : Stmt → List Step
       .enter .RANGE_EXPR :: .token .L_BRACK 1 ::
       (nodes lo ++ (.token .COLON 1 :: (nodes hi ++ (.token .R_BRACK 1 :: .exit :: .exit ::
         (blockNodes (nodesL body) ++ [.exit])))))
+  | .gateDef none nq body =>
+    .enter .GATE :: .token .GATE_KW 1 :: .enter .NAME :: .token .IDENT 1 :: .exit ::
+      .enter .PARAM_LIST :: (paramNodes nq ++ (.exit :: (blockNodes (nodesL body) ++ [.exit])))
+  | .gateDef (some k) nq body =>
+    .enter .GATE :: .token .GATE_KW 1 :: .enter .NAME :: .token .IDENT 1 :: .exit ::
+      .enter .PARAM_LIST :: .token .L_PAREN 1 :: (paramNodes k ++ (.token .R_PAREN 1 :: .exit ::
+        .enter .PARAM_LIST :: (paramNodes nq ++ (.exit :: (blockNodes (nodesL body) ++ [.exit])))))
+  | .defS ps ret body =>
+    .enter .DEF :: .token .DEF_KW 1 :: .enter .NAME :: .token .IDENT 1 :: .exit ::
+      .enter .TYPED_PARAM_LIST :: .token .L_PAREN 1 :: (typedNodes ps ++ (.token .R_PAREN 1 :: .exit ::
+        (retNodes ret ++ (blockNodes (nodesL body) ++ [.exit]))))
+  | .ret none => [.enter .EXPR_STMT, .enter .RETURN_EXPR, .token .RETURN_KW 1, .exit, .token .SEMICOLON 1, .exit]
+  | .ret (some e) =>
+    .enter .EXPR_STMT :: .enter .RETURN_EXPR :: .token .RETURN_KW 1 :: (nodes e ++ [.exit, .token .SEMICOLON 1, .exit])
 def nodesL : Stmts → List Step
   | .nil => []
   | .cons s ss => nodesS s ++ nodesL ss
